@@ -134,7 +134,7 @@ def run(shard, seed):
             res.sample(prog, 1)
         k += 1
         if v:
-            prev = _PREV.get(_key(prog))
+            prev = _PREV.get(_key(prog)) if _key(prog) is not None else None
             if prev is not None and "previous" not in v["program"]:
                 v["program"] = dict(v["program"], previous=prev)
             res.violations.append(v)
